@@ -47,8 +47,10 @@ func newSliceDecoder(dec Decoder, elemType *runtime.Type, size uintptr, structNa
 		size:              size,
 		arrayPool: sync.Pool{
 			New: func() interface{} {
+				data := newArray(elemType, defaultSliceCapacity)
+				verifTrackArray(data, defaultSliceCapacity)
 				return &sliceHeader{
-					data: newArray(elemType, defaultSliceCapacity),
+					data: data,
 					len:  0,
 					cap:  defaultSliceCapacity,
 				}
@@ -65,6 +67,7 @@ func (d *sliceDecoder) newSlice(src *sliceHeader) *sliceHeader {
 		// copy original elem
 		if slice.cap < src.cap {
 			data := newArray(d.elemType, src.cap)
+			verifTrackArray(data, src.cap)
 			slice = &sliceHeader{data: data, len: src.len, cap: src.cap}
 		} else {
 			slice.len = src.len
@@ -77,6 +80,7 @@ func (d *sliceDecoder) newSlice(src *sliceHeader) *sliceHeader {
 }
 
 func (d *sliceDecoder) releaseSlice(p *sliceHeader) {
+	verifCheckSliceHeader(p)
 	d.arrayPool.Put(p)
 }
 
@@ -138,6 +142,7 @@ func (d *sliceDecoder) DecodeStream(s *Stream, depth int64, p unsafe.Pointer) er
 					src := sliceHeader{data: data, len: idx, cap: capacity}
 					capacity *= 2
 					data = newArray(d.elemType, capacity)
+					verifTrackArray(data, capacity)
 					dst := sliceHeader{data: data, len: idx, cap: capacity}
 					copySlice(d.elemType, dst, src)
 				}
@@ -248,6 +253,7 @@ func (d *sliceDecoder) Decode(ctx *RuntimeContext, cursor, depth int64, p unsafe
 					src := sliceHeader{data: data, len: idx, cap: capacity}
 					capacity *= 2
 					data = newArray(d.elemType, capacity)
+					verifTrackArray(data, capacity)
 					dst := sliceHeader{data: data, len: idx, cap: capacity}
 					copySlice(d.elemType, dst, src)
 				}
